@@ -513,3 +513,40 @@ def nested_include_rule(run):
     run.check(descends or bool(later), "INC", "INC|nested-include-unprocessed", p.loc() if p else "-",
               "an #include inside an #if arm is resolved (or rejected) after the arm is selected",
               "an `#include` written inside an `#if` arm is parsed into a DirectiveInclude node, but parse_and_resolve_includes only replaces top-level nodes and no later phase handles DirectiveInclude (handlers: %s): the directive is silently ignored, even when the file does not exist" % handlers)
+
+
+def early_binding_rule(run, R="COND"):
+    """the selected arm of an `#if` contributes as if written in place: a name reference that is bound while the blocks are still
+    being resolved (the collection passes run inside the pre-pass loop) may not fail for a name that a pending block can still
+    declare.  In the collection functions, a reporting look-up (`get_by_name*`, which fails with `unknown ...`) is preceded by a
+    non-reporting one, and the function asks whether `#if` blocks are pending"""
+    import json
+    prog = run.prog
+    n = 0
+    for f in prog.real_fns():
+        if f.kind == "Closure" or not re.fullmatch(r"asm::decls::\w+::collect", f.id):
+            continue
+        rep = [(bi, t) for bi, t in f.calls() if re.search(r"SymbolManager::<.*>::get_by_name(_global)?$", t.get("callee") or "")]
+        if not rep:
+            continue
+        n += len(rep)
+        tries = [bi for bi, t in f.calls() if re.search(r"SymbolManager::<.*>::try_get_by_name", t.get("callee") or "")]
+        fam = [g for g in prog.real_fns() if (g.raw.get("root") or g.id) == f.id]
+        asks_pending = False
+        for g in fam:
+            for b in sorted(g.reachable()):
+                tt = g.blocks[b]["term"]
+                if tt["k"] != "switch":
+                    continue
+                l_ = T.op_local(tt["discr"])
+                o = g.origin_local(l_) if l_ is not None else None
+                if o and o[0] == "discr":
+                    vs = o[2].get("variants") or {}
+                    if any(vs.get(v) == "DirectiveIf" for v, _ in tt["targets"]):
+                        asks_pending = True
+        for bi, t in rep:
+            ok = asks_pending and bool(tries)
+            run.check(ok, R, "%s|early-binding|%s" % (R, f.id.split("::")[-2]), f.loc(t["span"]),
+                      "%s: the reporting look-up is preceded by a non-reporting one and the function asks for pending #if blocks" % f.id,
+                      "%s fails with `unknown ...` for a name it cannot find while `#if` blocks are still unresolved: `#if A { #bankdef b1 {..} }` followed by `#bank b1` is rejected although the selected arm declares the bank" % f.id)
+    run.floor(R, "reporting look-ups in the collection passes", n, 1)
